@@ -9,15 +9,15 @@ Require Import DSG.GenExpandFn.
 Lemma gen_should_break_key_eq : gen_expand_understood = true ->
   forall c, gen_should_break_key c = should_break_key c.
 Proof.
-  unfold gen_expand_understood; intros U; try discriminate U; clear U.
-  intros c. unfold gen_should_break_key, should_break_key. tree_eq.
+  unfold gen_expand_understood; intros U; try discriminate U. all: clear U.
+  all: intros c. all: unfold gen_should_break_key, should_break_key. all: tree_eq.
 Qed.
 
 Lemma gen_push_prefix_eq : gen_expand_understood = true ->
   forall b s f, gen_push_prefix b s f = push_prefix b s f.
 Proof.
-  unfold gen_expand_understood; intros U; try discriminate U; clear U.
-  intros b s f. unfold gen_push_prefix, push_prefix. destruct s, f; reflexivity.
+  unfold gen_expand_understood; intros U; try discriminate U. all: clear U.
+  all: intros b s f. all: unfold gen_push_prefix, push_prefix. all: destruct s, f; reflexivity.
 Qed.
 
 Lemma gen_x_body_eq : gen_expand_understood = true ->
@@ -26,11 +26,11 @@ Proof.
   intros U variables s c.
   pose proof (gen_should_break_key_eq U c) as K.
   pose proof (gen_push_prefix_eq U) as PP. revert U.
-  unfold gen_expand_understood; intros U; try discriminate U; clear U.
-  unfold gen_x_body, xstep, flush_prefix. rewrite K. clear K.
-  destruct s as [v p f k fo si]; cbn.
-  rewrite ?PP.
-  destruct (should_break_key c) eqn:SB; destruct f, fo; cbn;
+  unfold gen_expand_understood; intros U; try discriminate U. all: clear U.
+  all: unfold gen_x_body, xstep, flush_prefix. all: rewrite K. all: clear K.
+  all: destruct s as [v p f k fo si]; cbn.
+  all: rewrite ?PP.
+  all: destruct (should_break_key c) eqn:SB; destruct f, fo; cbn;
     destruct (variables k); destruct (N.eqb_spec p 0); try subst p; cbn; tree_eq.
 Qed.
 
@@ -40,10 +40,10 @@ Proof.
   intros U value variables.
   pose proof (gen_x_body_eq U variables) as B.
   pose proof (gen_push_prefix_eq U) as PP. revert U.
-  unfold gen_expand_understood; intros U; try discriminate U; clear U.
-  unfold gen_expand_by_wrapper, expand_by_wrapper, xscan, xinit.
-  rewrite (fold_left_ext _ _ B).
-  destruct (fold_left (xstep variables) value _) as [v p f k fo si].
-  unfold xfinish, spread_of, is_nil; cbn. rewrite ?PP. unfold push_prefix.
-  tree_eq.
+  unfold gen_expand_understood; intros U; try discriminate U. all: clear U.
+  all: unfold gen_expand_by_wrapper, expand_by_wrapper, xscan, xinit.
+  all: rewrite (fold_left_ext _ _ B).
+  all: destruct (fold_left (xstep variables) value _) as [v p f k fo si].
+  all: unfold xfinish, spread_of, is_nil; cbn. all: rewrite ?PP. all: unfold push_prefix.
+  all: tree_eq.
 Qed.
